@@ -216,17 +216,18 @@ theorem putEsc_inv {b : NB} (c : Nat) (hi : NBInv b) (hl : (escapeChar c).length
     simp only [List.length_cons, List.length_nil] at hl
     refine ⟨⟨?_, ?_, ?_, ?_⟩, ?_⟩
     · simp [printChar, ht]
-    · simp only [printChar, ho, cap, Bool.false_or, decide_eq_false_iff_not]; omega
+    · simp only [printChar, ho, cap, Bool.false_or]; exact decide_eq_false (by omega)
     · simp [printChar, ht, hp]
-    · simp only [printChar]; rw [wrapSub_small (by omega) (by omega)]; omega
+    · simp only [printChar]; rw [wrapSub_small (a := b.len) (b := 1) (by omega) (by omega)]; omega
     · simp [printChar, ht]
   · have hne : b.len ≠ 0 := by omega
     have hk : min (escapeChar c).length (b.len - 1) = (escapeChar c).length := by omega
     refine ⟨⟨?_, ?_, ?_, ?_⟩, ?_⟩
     · simp [printArgs, hne, ht, hk]
-    · simp only [printArgs, hne, ↓reduceIte, hk, ho, cap, Bool.false_or, decide_eq_false_iff_not]; omega
+    · simp only [printArgs, hne, ↓reduceIte, hk, ho, cap, Bool.false_or]; exact decide_eq_false (by omega)
     · simp [printArgs, hne, ht, hk, hp]
-    · simp only [printArgs, hne, ↓reduceIte]; rw [wrapSub_small (by omega) (by omega)]; omega
+    · simp only [printArgs, hne, ↓reduceIte]
+      rw [wrapSub_small (a := b.len) (b := (escapeChar c).length) (by omega) (by omega)]; omega
     · simp [printArgs, hne, ht, hk]
 
 theorem escapeStr_cons (c : Nat) (cs : List Nat) : escapeStr (c :: cs) = escapeChar c ++ escapeStr cs := by
@@ -324,7 +325,7 @@ theorem evText_run (f : Bool) (e : Ev) (hn : bodyRun .normal (escapeName f e.nam
       some ⟨if n = 0 then .zero else .int, [.obj, .arr, .obj]⟩ := by
     split
     · exact ⟨e.tid, dec_run_val _ _⟩
-    · refine ⟨e.tid, run_trans (run_trans (dec_run_val e.pid _) (t := ⟨.val, [.obj, .arr, .obj]⟩) ?_) (dec_run_val _ _)⟩
+    · refine ⟨e.tid, run_trans (t := ⟨.val, [.obj, .arr, .obj]⟩) (run_trans (dec_run_val e.pid _) ?_) (dec_run_val _ _)⟩
       exact numEnd_run (by decide) (by decide)
   obtain ⟨n, h5⟩ := h5
   have h6 : run ⟨if n = 0 then .zero else .int, [.obj, .arr, .obj]⟩ b!",\"name\":\"" =
@@ -352,5 +353,63 @@ theorem evText_head (f : Bool) (e : Ev) : ∃ E, evText f e = 123 :: E := by
 
 theorem metaLine_head (kind : List Nat) (tid : Nat) (comm : List Nat) : ∃ E, metaLine kind tid comm = 123 :: E := by
   unfold metaLine; exact ⟨_, by simp [List.append_assoc]; rfl⟩
+
+theorem nameOut_body (name : List Nat) : bodyRun .normal (escapeName true name).out = some .normal := by
+  obtain ⟨_, k, hk⟩ := nameLoop_fixed name nbInit nbInit_inv
+  have : (escapeName true name).out = escapeStr (name.take k) := by simpa [escapeName, nbInit] using hk
+  rw [this]; exact escapeStr_body _
+
+theorem header_run (comm : List Nat) (tasks : List Task) :
+    run init (headerFix comm tasks).1 = some (openSt (headerFix comm tasks).2) := by
+  have h0 : run init b!"{\"traceEvents\":[\n" = some (openSt false) := by decide
+  have hl : ∀ (ts : List Task) (lc : Bool),
+      run (openSt lc) (headerFixLines comm lc ts).1 = some (openSt (headerFixLines comm lc ts).2) := by
+    intro ts
+    induction ts with
+    | nil => intro lc; simp [headerFixLines, run]
+    | cons t ts ih =>
+      intro lc
+      simp only [headerFixLines]
+      have hc := escapeStr_body comm
+      have hp : bodyRun .normal b!"process_name" = some .normal := by decide
+      have ht : bodyRun .normal b!"thread_name" = some .normal := by decide
+      obtain ⟨E, hE⟩ := metaLine_head b!"process_name" t.tid (escapeStr comm)
+      have h1 : run (openSt lc) ((if lc then b!",\n" else []) ++ metaLine b!"process_name" t.tid (escapeStr comm)) =
+          some (openSt true) := by
+        rw [hE]; exact elem_run lc (by rw [← hE]; exact metaLine_run t.tid hp hc)
+      have h2 : run (openSt true) b!",\n" = some ⟨.val, [.arr, .obj]⟩ := by decide
+      have h3 := metaLine_run (comm := escapeStr comm) t.tid ht hc
+      exact run_trans (run_trans (run_trans h1 h2) h3) (ih true)
+  unfold headerFix
+  exact run_trans h0 (hl tasks false)
+
+theorem evs_run (evs : List Ev) (lc : Bool) :
+    run (openSt lc) (evsText true lc evs) = some (openSt (lc || !evs.isEmpty)) := by
+  induction evs generalizing lc with
+  | nil => simp [evsText, run]
+  | cons e es ih =>
+    simp only [evsText]
+    obtain ⟨E, hE⟩ := evText_head true e
+    have hn : bodyRun .normal (escapeName true e.name).out = some .normal := nameOut_body e.name
+    have h1 : run (openSt lc) ((if lc then b!",\n" else []) ++ evText true e) = some (openSt true) := by
+      rw [hE]; exact elem_run lc (by rw [← hE]; exact evText_run true e hn)
+    have := run_trans h1 (ih true)
+    simpa using this
+
+theorem footer_run (lc : Bool) (version date c : List Nat)
+    (hv : validBody version = true) (hd : validBody date = true) :
+    run (openSt lc) (footer true version date (some c)) = some ⟨.after, []⟩ := by
+  have f1 : run (openSt lc) b!"\n], \"displayTimeUnit\": \"ns\", \"metadata\": {\n" =
+      some ⟨.keyOrEnd, [.obj, .obj]⟩ := by cases lc <;> decide
+  have f2 : run ⟨.keyOrEnd, [.obj, .obj]⟩ b!"\"version\":\"uftrace " = some ⟨.str false .normal, [.obj, .obj]⟩ := by decide
+  have f3 : run ⟨.str false .normal, [.obj, .obj]⟩ b!"\",\n" = some ⟨.key, [.obj, .obj]⟩ := by decide
+  have f4 : run ⟨.key, [.obj, .obj]⟩ b!"\"recorded_time\":\"" = some ⟨.str false .normal, [.obj, .obj]⟩ := by decide
+  have f6 : run ⟨.key, [.obj, .obj]⟩ b!"\"command_line\":\"" = some ⟨.str false .normal, [.obj, .obj]⟩ := by decide
+  have f7 : run ⟨.str false .normal, [.obj, .obj]⟩ b!"\"\n" = some ⟨.after, [.obj, .obj]⟩ := by decide
+  have f8 : run ⟨.after, [.obj, .obj]⟩ b!"} }\n" = some ⟨.after, []⟩ := by decide
+  have bv := run_body (k := false) (stk := [.obj, .obj]) (body_of_valid hv)
+  have bd := run_body (k := false) (stk := [.obj, .obj]) (body_of_valid hd)
+  have bc := run_body (k := false) (stk := [.obj, .obj]) (escCmdline_body c)
+  simp only [footer, ↓reduceIte, run_append, f1, f2, bv, f3, f4, bd, f6, bc, f7, f8, Option.bind_some]
 
 end Uft.Json
